@@ -745,12 +745,13 @@ func cmdTable(rowsPath, outPath string) {
 // ---------------------------------------------------------------- trace (wide types)
 
 type Operands struct {
-	T       string `json:"t"`
-	Vals    []Z    `json:"vals"`
-	Core    []Z    `json:"core"`
-	Must    [][]Z  `json:"must"`
-	Pairs   [][]Z  `json:"pairs"`
-	Amounts []Z    `json:"amounts"`
+	T         string `json:"t"`
+	Vals      []Z    `json:"vals"`
+	Core      []Z    `json:"core"`
+	Must      [][]Z  `json:"must"`
+	ShiftMust [][]Z  `json:"shiftmust"`
+	Pairs     [][]Z  `json:"pairs"`
+	Amounts   []Z    `json:"amounts"`
 }
 
 type Event struct {
@@ -951,6 +952,10 @@ func cmdTrace(prop, opsPath, outPath string, pairsPerType int) {
 				nLeft := pairsPerType / (len(amounts) + 1)
 				if nLeft < 4 {
 					nLeft = 4
+				}
+				// spec (operand, amount) pairs around the machine-word boundaries: always
+				for _, p := range o.ShiftMust {
+					cases = append(cases, caseT{op, fromZ(p[0]), fromZ(p[1])})
 				}
 				for _, b := range amounts {
 					for i := 0; i < nLeft; i++ {
